@@ -24,6 +24,8 @@ def gen(rnd):
     for grp in sc['group'].values():
         for p in grp:
             p['via_temp'] = rnd.random() < 0.7
+            if rnd.random() < 0.25:
+                p['newfix'] = scengen.gen_content(rnd, 1, 4)     # new() reformats the file in place (kept if still interesting)
     sc['extra_files'] = [('notes.txt', 'keep me'), ('b/other.h', 'int x;'), ('deep/er/z.txt', '')][: rnd.randint(1, 3)]
     sc['pre_orig'] = [n for n, _ in sc['files'] if rnd.random() < 0.3]
     sc['modes'] = {n: rnd.choice([0o644, 0o600, 0o755, 0o640, 0o664]) for n, _ in sc['files']}
